@@ -84,3 +84,24 @@ func SyncMap(m *sync.Map) (n int) {
 func WriteGlobal(x int) { global = x }
 
 func Float(x int64) int64 { return int64(float64(x) * 0.3) }
+
+// process-local state held by a keeper
+type cacheT struct {
+	n  int
+	bz []byte
+}
+
+type Keeper struct {
+	cache *cacheT
+	seen  map[string]bool
+}
+
+func WriteKeeperCache(k Keeper, x int) { k.cache.n = x }
+
+func WriteKeeperMap(k *Keeper, s string) { k.seen[s] = true }
+
+func LocalCopyOK(k Keeper, x int) int {
+	c := cacheT{}
+	c.n = x
+	return c.n + k.cache.n
+}
